@@ -478,6 +478,18 @@ fn build_private_batch_constraints(
     debug_assert_eq!(aggregated_output::BLOCK_NUMBER_OFFSET, 7);
 }
 
+/// Verification hook (compiled only with `--cfg quantus_network_qp_zk_circuits_verif`): the
+/// crate-private wrapper constraint builder, callable from the conformance harness so the wrapper
+/// logic can be evaluated over free child public inputs (no recursive verifier).
+#[cfg(quantus_network_qp_zk_circuits_verif)]
+pub fn verif_build_private_batch_constraints(
+    builder: &mut CircuitBuilder<F, D>,
+    targets: &PrivateBatchCircuitTargets,
+    n_leaf: usize,
+) {
+    build_private_batch_constraints(builder, targets, n_leaf)
+}
+
 fn hash_dummy_nullifier_pre_image(
     builder: &mut CircuitBuilder<F, D>,
     pre_image: [Target; 4],
